@@ -211,8 +211,10 @@ impl C12 {
             let at = r.usize(p.rules.len() + 1);
             p.rules.insert(at, marker_rule(tag));
         }
-        // data files: flat or nested
+        // data files: flat or nested; rules files: flat, nested, or the same base name in
+        // different directories (team-a/checks.guard, team-b/checks.guard)
         let nested = r.chance(1, 3);
+        let same_base = r.chance(1, 4);
         let mut files = Vec::new();
         let mut data = Vec::new();
         for (i, (d, f)) in wl.docs.iter().enumerate() {
@@ -223,7 +225,7 @@ impl C12 {
         let mut rls = Vec::new();
         for (i, p) in wl.progs.iter().enumerate() {
             let tag = ["a", "b", "c", "d"][i % 4];
-            let rel = if nested && i == 1 { format!("rules/sub/r{}.guard", i) } else { rules_rel(i) };
+            let rel = if same_base { format!("rules/team-{}/checks.guard", tag) } else if nested && i == 1 { format!("rules/sub/r{}.guard", i) } else { rules_rel(i) };
             files.push(FileSpec { rel: rel.clone(), bytes: p.print().into_bytes(), mtime_ns: 0 });
             rls.push((rel, format!("mk_{tag}")));
         }
@@ -237,6 +239,9 @@ impl C12 {
         }
         if nested {
             rep.count("gen.nested_dirs", 1);
+        }
+        if same_base && wl.progs.len() > 1 {
+            rep.count("gen.same_base_name_rules", 1);
         }
         (wl.clone(), Scn12 { files, rules: rls, data, test_cases: cases })
     }
@@ -506,7 +511,18 @@ impl C12 {
             return out;
         }
         let structured = d.kind.ends_with("structured");
-        if structured && d.fmt == "junit" {
+        let base_names_collide = {
+            let mut b: Vec<&str> = scn.rules.iter().map(|(rel, _)| rel.rsplit('/').next().unwrap_or("")).collect();
+            b.sort();
+            let n = b.len();
+            b.dedup();
+            b.len() != n
+        };
+        if structured && d.fmt == "junit" && base_names_collide && !d.kind.starts_with("payload") {
+            // JUnit names test cases by the rules file's base name: not attributable here;
+            // the exit code has been checked above
+            rep.count("skipped.junit_base_names_collide", 1);
+        } else if structured && d.fmt == "junit" {
             // <testsuite name=DATA> <testcase name=RULES status=pass|skip> | <testcase ..><failure..>
             let text = String::from_utf8_lossy(&s.stdout).into_owned();
             let payload_order: Option<Vec<usize>> = if d.kind.starts_with("payload") { Some(self.payload_data_order(scn, d)) } else { None };
